@@ -171,20 +171,24 @@ def matching_sides(orc, r, tok, factor=1, rel=1e-9, abs_=0.0):
   return out
 
 
-def check_value(ctx, kind, tok, orc, r, factor=1, rel=1e-9, abs_=0.0, where=None, count=True, fmt=None):
+def check_value(ctx, kind, tok, orc, r, factor=1, rel=1e-9, abs_=0.0, where=None, count=True, fmt=None, strict=False):
+  """strict: the grid is exact in double arithmetic (dyadic step), so a row ON a range start / table end is on a
+  definite side and the other side's value is NOT accepted."""
   if fmt is not None and not precision_ok(tok, fmt):
     ctx.violation("precision", "%s: token %r carries fewer digits than the %s format (at %s)" % (kind, tok, fmt, where), what="precision", fmt=fmt)
     return False
-  return _check_value(ctx, kind, tok, orc, r, factor, rel, abs_, where, count)
+  return _check_value(ctx, kind, tok, orc, r, factor, rel, abs_, where, count, strict)
 
 
-def _check_value(ctx, kind, tok, orc, r, factor=1, rel=1e-9, abs_=0.0, where=None, count=True):
+def _check_value(ctx, kind, tok, orc, r, factor=1, rel=1e-9, abs_=0.0, where=None, count=True, strict=False):
   """tok == orc(r)*factor.  When r sits on a range boundary / table end (the writer's
   floating-point r and the exact grid point may fall on different sides) the value of
   either side is accepted."""
   r = F(r)
   ats = [r]
-  if r != 0 and on_break(r, orc.breaks):  # r = 0 is exact in both arithmetics: never ambiguous
+  if strict and on_break(r, orc.breaks):
+    ctx.count("values_on_breakpoint_judged_strictly")
+  elif r != 0 and on_break(r, orc.breaks):  # r = 0 is exact in both arithmetics: never ambiguous
     d = max(abs(r), mpf(1)) * mpf("1e-10")
     ats += [r + d, r - d]
     ctx.count("values_on_breakpoint_either_side_accepted")
